@@ -73,25 +73,74 @@ def _param_loops(fn) -> Dict[str, List[ast.For]]:
     return out
 
 
+def _exists_raise(fn, param: str):
+    """'if some value of mapping `param` satisfies T: raise E', in any of its spellings -> [(value variable, T, raise node, anchor)]:
+    a loop with an `if T: raise`; `x = next((k for k, v in param.items() if T), None)` followed by `if x is not None: raise`;
+    `if any(T for .. in param.items() / .values()): raise`."""
+    out = []
+    for lp in _param_loops(fn).get(param, []):
+        if isinstance(lp.target, ast.Tuple) and len(lp.target.elts) == 2 and len(lp.body) == 1 and isinstance(lp.body[0], ast.If):
+            iff = lp.body[0]
+            rs = [b for b in iff.body if isinstance(b, ast.Raise)]
+            if rs and not iff.orelse:
+                out.append((lp.target.elts[1].id, iff.test, rs[0], lp))
+
+    def gen_over(e):
+        if isinstance(e, ast.GeneratorExp) and len(e.generators) == 1:
+            g = e.generators[0]
+            it = g.iter
+            if isinstance(it, ast.Call) and isinstance(it.func, ast.Attribute) and A.dotted(it.func.value) == param:
+                if it.func.attr == "items" and isinstance(g.target, ast.Tuple) and len(g.target.elts) == 2 and isinstance(g.target.elts[1], ast.Name):
+                    return g.target.elts[1].id, g
+                if it.func.attr == "values" and isinstance(g.target, ast.Name):
+                    return g.target.id, g
+        return None
+    for iff in [n for n in C.walk_shallow(fn.node) if isinstance(n, ast.If) and not n.orelse]:
+        rs = [b for b in iff.body if isinstance(b, ast.Raise)]
+        if not rs:
+            continue
+        t = iff.test
+        # x is not None / x  with x = next((.. if T), None)
+        var = None
+        if isinstance(t, ast.Compare) and len(t.ops) == 1 and isinstance(t.ops[0], ast.IsNot) and isinstance(t.left, ast.Name) \
+                and A.const_value(t.comparators[0]) is None and isinstance(t.comparators[0], ast.Constant):
+            var = t.left.id
+        if var is not None:
+            # the definition that reaches this test: the closest earlier assignment
+            defs_ = [s_ for s_ in A.stores(fn) if isinstance(s_.target, ast.Name) and s_.target.id == var and isinstance(s_.node, ast.Assign)
+                     and A.seq(s_.stmt) < A.seq(iff)]
+            if defs_:
+                d = max(defs_, key=lambda s_: A.seq(s_.stmt)).node.value
+                if isinstance(d, ast.Name):
+                    from .. import norm as N
+                    d = N.expand(fn, d)
+                if isinstance(d, ast.Call) and A.call_name(d) == "next" and len(d.args) == 2 and A.const_value(d.args[1]) is None:
+                    go = gen_over(d.args[0])
+                    if go and len(go[1].ifs) == 1:
+                        out.append((go[0], go[1].ifs[0], rs[0], iff))
+        if isinstance(t, ast.Call) and A.call_name(t) == "any" and len(t.args) == 1:
+            go = gen_over(t.args[0])
+            if go and not go[1].ifs:
+                out.append((go[0], t.args[0].elt, rs[0], iff))
+    return out
+
+
 def rule_cells(ctx: Ctx) -> None:
     nz = ctx.func(f"{ABM}.NonZero.check")
     params = nz.params[1:4]
-    loops = _param_loops(nz)
     for p in params:
-        lp = loops.get(p, [])
+        found = _exists_raise(nz, p)
+        lp = [f[3] for f in found]
         ok = False
         tt = None
         exc = None
-        if len(lp) == 1 and isinstance(lp[0].target, ast.Tuple):
-            val = lp[0].target.elts[1].id
-            ifs = [n for n in lp[0].body if isinstance(n, ast.If) and any(isinstance(b, ast.Raise) for b in n.body)]
-            if len(ifs) == 1 and len(lp[0].body) == 1:
-                names = {x.id for x in ast.walk(ifs[0].test) if isinstance(x, ast.Name)} - {"Decimal"}
-                if names == {val}:
-                    tt = K.truth_table(ifs[0].test, val, extra=[0.0])
-                    ok = tt == {"(-inf,0)": True, "{0}": False, "(0,+inf)": False}
-                    r = next(b for b in ifs[0].body if isinstance(b, ast.Raise))
-                    exc = (A.dotted(r.exc.func) if isinstance(r.exc, ast.Call) else A.dotted(r.exc)) or ""
+        if len(found) == 1:
+            val, test, r, _ = found[0]
+            names = {x.id for x in ast.walk(test) if isinstance(x, ast.Name)} - {"Decimal"}
+            if names == {val}:
+                tt = K.truth_table(test, val, extra=[0.0])
+                ok = tt == {"(-inf,0)": True, "{0}": False, "(0,+inf)": False}
+                exc = (A.dotted(r.exc.func) if isinstance(r.exc, ast.Call) else A.dotted(r.exc)) or ""
         ctx.sample({"rule": "C02.3", "param": p, "truth_table": tt, "raises": exc})
         ctx.check(ok, "C02.3", f"NonZero refuses exactly the negative entries of '{p}' (threshold cells)", nz, lp[0] if lp else nz.node,
                   f"{tt} -> {exc}", f"NonZero's guard on '{p}' has truth table {tt} (a negative "
